@@ -651,5 +651,39 @@ func (g *commonGen) Next(w *World, n int) *Step {
 		st.Gap = time.Second
 	}
 	g.maybeFault(w, &st)
+	g.decorate(&st)
 	return &st
+}
+
+// oddHeaders are request headers browsers, proxies and scripts really send and
+// that an authentication library has no business acting on.
+var oddHeaders = []string{"Sec-Purpose: prefetch;prerender", "Purpose: prefetch", "X-Moz: prefetch", "X-Purpose: preview",
+	"X-HTTP-Method-Override: DELETE", "X-HTTP-Method-Override: POST", "X-HTTP-Method-Override: GET", "Access-Control-Request-Method: POST",
+	"X-Requested-With: XMLHttpRequest", "X-Forwarded-For: 203.0.113.9", "X-Forwarded-Host: evil.example", "Origin: https://evil.example",
+	"Referer: https://evil.example/page", "Accept: application/json", "Cache-Control: no-cache", "DNT: 1"}
+
+var oddQueries = []string{"_method=DELETE", "_method=delete", "_method=POST", "_method=GET", "format=json", "debug=1", "callback=x"}
+
+// decorate attaches, to some requests, a header or a query parameter the
+// flows do not know about.
+func (g *commonGen) decorate(st *Step) {
+	switch st.Kind {
+	case "advance", "restart", "drop_session", "copy_cookie", "stale_cookie", "set_cookie", "app_session_put", "second_site", "replay",
+		"op_lock", "op_unlock", "op_update_password", "op_start_confirm", "op_delete":
+		return
+	}
+	d := g.r.Intn(24)
+	if d > 2 {
+		return
+	}
+	str := map[string]string{}
+	for k, v := range st.Str {
+		str[k] = v
+	}
+	if d < 2 {
+		str["hdr"] = oddHeaders[g.r.Intn(len(oddHeaders))]
+	} else if st.Kind != "probe" && st.Kind != "oauth2_callback" {
+		str["xquery"] = oddQueries[g.r.Intn(len(oddQueries))]
+	}
+	st.Str = str
 }
